@@ -133,6 +133,8 @@ def strategy(tier: str):
                                   announce_op().map(lambda o: [o]), tick_op.map(lambda o: [o]), tick_op.map(lambda o: [o]),
                                   browser_op.map(lambda o: [o]), churn(), mixed()),
                         min_size=1, max_size=14 if tier == 'quick' else 28).map(lambda cs: [o for c in cs for o in c]),
+        'spawn': st.one_of(st.none(), st.none(), st.fixed_dictionaries({
+            'after': st.integers(0, 4), 'types': st.lists(st.integers(0, 2), min_size=1, max_size=2, unique=True).map(sorted)})),
     })
 
 
@@ -169,11 +171,13 @@ class Exec:
         self.case = case
         self.browsers: List[Tuple[Any, sim.RecListener, List[str]]] = []
         self.current: Optional[List[Dict[str, Any]]] = None
-        self.stats = {'datagrams': 0, 'removed_then_readded': 0, 'purge_removals': 0, 'multi_change_datagrams': 0,
+        self.stats = {'browser_started_inside_callback': 0, 'datagrams': 0, 'removed_then_readded': 0, 'purge_removals': 0, 'multi_change_datagrams': 0,
                       'late_browsers': 0, 'late_browser_skipped': 0, 'callbacks': 0, 'goodbyes': 0, 'flush': 0,
                       'contradictory_dropped': 0, 'add_lookups': 0}
         self.in_inject = False
         self.pending: Optional[Violation] = None
+        self.spawned = False
+        self.n_callbacks = 0
 
     def on_add(self, lst: sim.RecListener, zc: Any, type_: str, name: str, ev: Dict[str, Any]) -> None:
         """Runs inside add_service: the triggering datagram's records must already be in the cache."""
@@ -200,9 +204,28 @@ class Exec:
         zc = host.zc
         await zc.async_wait_for_start()
 
+        spawn = self.case.get('spawn')
+        run = self
+
+        class Listener(sim.RecListener):
+            # the usual application pattern: a callback of one browser starts another browser (e.g. one per discovered type)
+            def _log(self_, kind: str, zc_: Any, type_: str, name: str) -> Dict[str, Any]:
+                e = sim.RecListener._log(self_, kind, zc_, type_, name)
+                if spawn is not None and not run.spawned:
+                    run.n_callbacks += 1
+                    if run.n_callbacks > spawn['after'] and len(run.browsers) < 3:
+                        run.spawned = True
+                        now = w.now_ms
+                        if any(r.type == 12 and r.is_expired(now) for ti in spawn['types'] for r in zc.cache.entries_with_name(TYPES[ti])):
+                            run.stats['late_browser_skipped'] += 1
+                        else:
+                            new_browser(spawn['types'])
+                            run.stats['browser_started_inside_callback'] += 1
+                return e
+
         def new_browser(tis: List[int]) -> None:
             types = [TYPES[i] for i in tis]
-            lst = sim.RecListener(w, on_add=self.on_add)
+            lst = Listener(w, on_add=self.on_add)
             br = AsyncServiceBrowser(zc, types if len(types) > 1 else types[0], listener=lst)
             self.browsers.append((br, lst, types))
 
